@@ -25,6 +25,8 @@ Fixpoint decode_ops (fuel : nat) (l : list Z) : list op :=
     | 14 :: r => ODebug :: decode_ops f r
     (* 15 / 16: fold / rfold of the iterator itself as the last operation of a history (plain values:
        what it visits is what a clone's fold visits; the iterator is gone afterwards) *)
+    (* 17: clone_from into another iterator, which is then observed: what a clone shows *)
+    | 17 :: r => OCloneObs :: decode_ops f r
     | 15 :: _ => [OFoldClone]
     | 16 :: _ => [ORfoldClone]
     | _ => []
